@@ -12,9 +12,10 @@ type inventoryFile struct {
 		ID   int    `json:"id"`
 		Kind string `json:"kind"`
 	} `json:"sites"`
-	PkgVars  []string       `json:"package_vars"`
-	Rewrites map[string]int `json:"rewrites"`
-	Warnings []string       `json:"warnings"`
+	PkgVars    []string       `json:"package_vars"`
+	Rewrites   map[string]int `json:"rewrites"`
+	Warnings   []string       `json:"warnings"`
+	Unmodelled []string       `json:"unmodelled_sync"`
 }
 
 func (d *driver) writeEvidence(path string, wall float64, nViol, nKnown int, keys []string, det map[string]any) error {
@@ -79,6 +80,7 @@ func (d *driver) writeEvidence(path string, wall float64, nViol, nKnown int, key
 		"instrumenter_rewrites":  inv.Rewrites,
 		"package_level_vars":     inv.PkgVars,
 		"instrumenter_warnings":  inv.Warnings,
+		"unmodelled_sync_sites":  inv.Unmodelled,
 		"determinism_selftest":   det,
 		"truncated":              truncated,
 		"violation_keys":         keys,
